@@ -109,8 +109,10 @@ impl Aggregator {
             }
             TopicLogSyncEvent::SessionFinished { metrics } => {
                 self.handle_session_end(session_id);
-                self.total_bytes_sent += metrics.sent_bytes();
-                self.total_bytes_received += metrics.received_bytes();
+                // The bytes of the sync phase have already been added to the totals when it
+                // finished (see `SyncFinished`), only the live phase is left to account for.
+                self.total_bytes_sent += metrics.sent_live_bytes;
+                self.total_bytes_received += metrics.received_live_bytes;
                 None
             }
             TopicLogSyncEvent::Failed { error } => {
